@@ -17,6 +17,7 @@ import ClairModel.Proofs.CpeFS
 import ClairModel.Proofs.CpeAccept
 import ClairModel.Proofs.CpeURI
 import ClairModel.Proofs.CpeURIAsm
+import ClairModel.Proofs.CpeMarshal
 
 -- every variable of a property statement is bound explicitly: a misspelt name is an error, not a new variable
 set_option autoImplicit false
@@ -217,6 +218,47 @@ theorem marshal_roundtrip_partial (w : WFN) (hv : valid w = .ok) (hl : w.length 
     (hb : ∀ a ∈ w, bindable a) : (marshalText w).bind unbind = some (norm w) := by
   simp only [marshalText, hv, Option.bind_some]
   exact unbind_roundtrip_partial w hv hl hb
+
+/-- `UnmarshalText` / `Scan` of what `MarshalText` / `Value` produced, into a
+    receiver `w0` that may already hold a name, replaces it by the name (same
+    hypothesis as the round trip). -/
+theorem marshal_unmarshal_roundtrip_partial (w0 w : WFN) (hv : valid w = .ok) (hl : w.length = 11)
+    (hb : ∀ a ∈ w, bindable a) : (marshalText w).bind (unmarshalText w0) = some (norm w) :=
+  unmarshal_marshal w0 w hv hl hb
+
+/-- The zero name (every attribute unset — more generally any name `Valid`
+    answers `ErrUnset` for) marshals to the empty text without error, its
+    `String()` is empty, and unmarshalling the empty text leaves the receiver
+    as it is: a zero name written to a column and read back into a fresh
+    receiver is the zero name again. -/
+theorem marshal_zero_roundtrip (w0 w : WFN) (hv : valid w = .errUnset) :
+    marshalText w = some [] ∧ wfnString w = [] ∧ (marshalText w).bind (unmarshalText w0) = some w0 :=
+  ⟨(marshalText_unset w hv).1, (marshalText_unset w hv).2, unmarshal_marshal_unset w0 w hv⟩
+
+example : valid (List.replicate 11 unsetValue) = .errUnset := by decide
+
+/-- Empty input leaves the receiver alone. -/
+theorem unmarshal_empty (w0 : WFN) : unmarshalText w0 [] = some w0 := rfl
+
+/-- `MarshalText` / `Value` return an error exactly for the names `Valid`
+    rejects with an error other than `ErrUnset`; for every other name they
+    return the bound string or the empty text. -/
+theorem marshal_error_iff (w : WFN) : marshalText w = none ↔ valid w = .err :=
+  marshalText_none_iff w
+
+/-- Whatever `Unbind` (so `UnmarshalText`, `Scan`, `UnbindFS`, `UnbindURI`)
+    returns without an error is a valid name with eleven attributes. -/
+theorem unbind_result_valid (s : Str) (w : WFN) (h : unbind s = some w) : valid w = .ok ∧ w.length = 11 :=
+  unbind_valid s w h
+
+/-- Every value string of a valid name is ASCII (below 0x7F): the byte-level,
+    ASCII-folding model of `Compare` is exact on valid names. -/
+theorem valid_values_ascii (w : WFN) (hv : valid w = .ok) : ∀ a ∈ w, ∀ c ∈ a.v, c < 127 :=
+  valid_ascii w hv
+
+/-- `NewValue` accepts exactly the non-empty value strings of the grammar. -/
+theorem newValue_accepts_iff (v : Str) : newValueOk v = true ↔ CpeSpec.ValueGrammar v ∧ v ≠ [] := by
+  simp only [newValueOk, Bool.and_eq_true, validate_iff_grammar' v, Bool.not_eq_true', List.isEmpty_eq_false_iff]
 
 /-- What is read back is again valid, and binds to the same string (the bound
     form is a fixed point). -/
@@ -500,6 +542,52 @@ theorem uri_roundtrip_uppercase_counterexample :
 theorem superset_implies_gate (vuln record : WFN) (h : isSuperset (compare vuln record) = true) :
     gate vuln record = true := by
   simp [gate, h]
+
+/-- What a Red Hat "CPE pattern" matches through the prefix hack: an advisory
+    name `P ++ T` whose attributes after `P` are all ANY (what `cpe:/a:redhat:openshift:4`
+    unbinds to) matches every repository name whose bound string begins with the
+    bound string of `P` — whatever the comparison says. -/
+theorem prefix_pattern_matches (P T R : WFN) (hT : ∀ a ∈ T, a.kind = .any ∨ a.kind = .unset)
+    (hV : valid (P ++ T) ≠ .errUnset) (hR : valid R ≠ .errUnset)
+    (h : (bindFS P).isPrefixOf (bindFS R) = true) : gate (P ++ T) R = true := by
+  simp [gate, substring_of_prefix P T R hT hV hR h]
+
+/-- And exactly those, next to the supersets, when the last attribute `a` of the
+    advisory name that is not ANY binds to a string not ending in `*` or `:`
+    (`TrimRight(…, ":*")` stops there): `Vulnerable`'s CPE condition is
+    "superset, or the advisory's bound string up to and including `a` is a
+    prefix of the repository's bound string".  The prefix test is on bytes:
+    it is case-sensitive, unlike the comparison, and it continues into the
+    next characters of the repository's attribute (`4` matches `4.13`, `41`). -/
+theorem gate_pattern_iff (P T R : WFN) (a : Value) (hT : ∀ a ∈ T, a.kind = .any ∨ a.kind = .unset)
+    (ha : ∃ x y, bindValue a = x ++ [y] ∧ trimSet y = false)
+    (hV : valid (P ++ a :: T) ≠ .errUnset) (hR : valid R ≠ .errUnset) :
+    gate (P ++ a :: T) R = (isSuperset (compare (P ++ a :: T) R) || (bindFS (P ++ [a])).isPrefixOf (bindFS R)) := by
+  simp only [gate, substring_iff_prefix P T R a hT ha hV hR]
+
+/-- `cpe:/a:redhat:openshift:4` against the repository name
+    `cpe:2.3:a:redhat:openshift:4.13:*:el8:*:*:*:*:*`: not a superset (version `4`
+    is not `4\.13`), reported through the prefix; with `OpenShift` in the
+    advisory it is not reported (the prefix test is case-sensitive), although
+    `OpenShift` against `openshift` compares EQUAL. -/
+def recOpenshift : WFN :=
+  [⟨.set, [97]⟩, ⟨.set, [114, 101, 100, 104, 97, 116]⟩, ⟨.set, [111, 112, 101, 110, 115, 104, 105, 102, 116]⟩,
+    ⟨.set, [52, 92, 46, 49, 51]⟩, ⟨.any, []⟩, ⟨.set, [101, 108, 56]⟩, ⟨.any, []⟩, ⟨.any, []⟩, ⟨.any, []⟩, ⟨.any, []⟩,
+    ⟨.any, []⟩]
+
+def advOpenshift (product : Str) : WFN :=
+  [⟨.set, [97]⟩, ⟨.set, [114, 101, 100, 104, 97, 116]⟩, ⟨.set, product⟩, ⟨.set, [52]⟩, ⟨.any, []⟩, ⟨.any, []⟩,
+    ⟨.any, []⟩, ⟨.unset, []⟩, ⟨.unset, []⟩, ⟨.unset, []⟩, ⟨.unset, []⟩]
+
+example : unbindURI [99, 112, 101, 58, 47, 97, 58, 114, 101, 100, 104, 97, 116, 58, 111, 112, 101, 110, 115, 104, 105, 102,
+    116, 58, 52] = some (advOpenshift [111, 112, 101, 110, 115, 104, 105, 102, 116]) := by decide
+
+theorem gate_prefix_example :
+    isSuperset (compare (advOpenshift [111, 112, 101, 110, 115, 104, 105, 102, 116]) recOpenshift) = false ∧
+      gate (advOpenshift [111, 112, 101, 110, 115, 104, 105, 102, 116]) recOpenshift = true ∧
+      gate (advOpenshift [79, 112, 101, 110, 83, 104, 105, 102, 116]) recOpenshift = false ∧
+      cmpAttr ⟨.set, [79, 112, 101, 110, 83, 104, 105, 102, 116]⟩ ⟨.set, [111, 112, 101, 110, 115, 104, 105, 102, 116]⟩ = .equal := by
+  decide
 
 /-- It reports nothing else than superset or the prefix match on the bound strings. -/
 theorem gate_iff (vuln record : WFN) :
